@@ -39,6 +39,7 @@ func programCorpus(tier string) func(emit func(progenum.Prog)) {
 	return func(emit func(progenum.Prog)) {
 		testdataProgs(emit)
 		progenum.Odd(emit)
+		progenum.Empties(emit)
 		progenum.TypeShapes(emit)
 		progenum.Shadow(quick, emit)
 		if quick {
@@ -69,6 +70,7 @@ func runProgramChecks(prop string, args []string) int {
 	ev := evidence.New(prop, "exploration")
 	tier := evidence.Tier()
 	harness.Init()
+	enableUserRules()
 
 	var srcCache sync.Map // filename -> tokenStarts
 	type famStat struct{ diags, crashes int }
@@ -110,6 +112,27 @@ func runProgramChecks(prop string, args []string) int {
 	}
 	st := runCorpus(programCorpus(tier), runOpts{allowErrors: allowCaseOrder}, handle)
 
+	// user rules whose object/value filters are applied to arbitrary sub-matches (C01 only; separate leg so that
+	// a crash inside one filter does not shadow the other filter kinds of the main run)
+	if prop == "C01" {
+		var ran int64
+		for i := 1; i <= 6; i++ {
+			enableUserRules(fmt.Sprintf("filters_u%d.go", i))
+			st2 := runCorpus(func(emit func(progenum.Prog)) {
+				testdataProgs(emit)
+				progenum.Odd(func(p progenum.Prog) {
+					if !strings.Contains(p.ID, "+") {
+						emit(p)
+					}
+				})
+				progenum.Empties(emit)
+			}, runOpts{allowErrors: allowCaseOrder, checkers: []string{"ruleguard"}}, handle)
+			ran += st2.ran
+		}
+		ev.Set("programs_run_with_unguarded_user_rules", ran)
+		enableUserRules()
+	}
+
 	// parameter leg (C01 only): every parameter value of the small domain, one parameter at a time
 	if prop == "C01" {
 		c01Params(ev, tier)
@@ -126,6 +149,10 @@ func runProgramChecks(prop string, args []string) int {
 	ev.Set("checkers_per_program", len(harness.Infos(nil)))
 	ev.Set("diagnostics_seen", diagCount)
 	ev.Set("checkers_that_reported", len(checkerSeen))
+	if !checkerSeen["ruleguard"] {
+		fmt.Fprintln(os.Stderr, prop+": the user-rules fixture (fixtures/rules/filters.go) produced no diagnostic on the whole corpus (broken check)")
+		return 2
+	}
 	ev.Sample(map[string]interface{}{"id": "shadowB|append|pkgfunc|s0||xs = %s", "source": progenum.ShadowBuiltin("append", "pkgfunc", progenum.Sigs[3], "", "xs = %s").Files[0].Src})
 	ev.Sample(map[string]interface{}{"id": "mutant example", "op": "bareReturn", "note": "testdata function with its results named and `return a, b` turned into `r0, r1 = a, b; return`"})
 	ev.Set("rule", "every program of: maintainers' examples; odd-syntax snippets alone and in ordered pairs; full product name x declaration kind x signature x argument shape x statement context of the shadow family (quick: pairwise reduction on non-first declaration kinds); comment texts start x alphabet^<=k in 7 positions; string constants tokens^<=n; all 1-deviation mutants of the examples (quick: the operator subset aimed at the property's shortcuts). Ill-typed candidates are dropped by go/types. Each surviving program is analysed by all registered checkers on long-lived instances. non-trivial = program on which some checker reported or crashed")
@@ -159,6 +186,7 @@ func c01Params(ev *evidence.Run, tier string) {
 			corpus = append(corpus, p)
 		}
 	})
+	progenum.Empties(func(p progenum.Prog) { corpus = append(corpus, p) })
 	tdByChecker := map[string][]progenum.Prog{}
 	testdataProgs(func(p progenum.Prog) { tdByChecker[p.Meta["checker"]] = append(tdByChecker[p.Meta["checker"]], p) })
 	nvals := 0
@@ -220,6 +248,8 @@ func c01Params(ev *evidence.Run, tier string) {
 
 func replayProgram(prop, file string) int {
 	installFakeResolver()
+	harness.Init()
+	enableUserRules("filters.go", "filters_u1.go", "filters_u2.go", "filters_u3.go", "filters_u4.go", "filters_u5.go", "filters_u6.go")
 	p, checker, err := loadReplayProg(file)
 	if err != nil {
 		fmt.Fprintln(os.Stderr, err)
